@@ -23,6 +23,15 @@ type c14Scenario struct {
 	InitCfg   string            `json:"init_config"` // what the client answers at first
 	Msgs      []wire.Msg        `json:"msgs"`
 	Bound     int               `json:"bound"`
+	// Gone: text that is part of no document state from message After on (an
+	// unsaved edit discarded by closing the file): no later response may show it,
+	// whatever is still being computed
+	Gone []c14Gone `json:"gone,omitempty"`
+}
+
+type c14Gone struct {
+	After int    `json:"after_message"`
+	Text  string `json:"text"`
 }
 
 type c14Case struct {
@@ -166,6 +175,21 @@ func c14Scenarios(thorough bool) []c14Scenario {
 			{Op: "inline", Doc: "main.journal", Line: 3, Char: 0},
 			{Op: "completion", Doc: "main.journal", Line: 3, Char: 0},
 		}},
+		// an included file's unsaved postings are discarded by closing it: the
+		// template offered in the including document right afterwards, while that
+		// document is analysed again, must not come from the discarded text
+		{Name: "S12-template-after-the-included-file-was-closed", Files: files, Bound: b(1, 2), Msgs: []wire.Msg{
+			{Op: "open", Doc: "main.journal", Text: "include inc.journal\n\n2001-03-01 landlord\n"},
+			{Op: "drain"},
+			{Op: "open", Doc: "inc.journal", Text: c14Inc0},
+			{Op: "change", Doc: "inc.journal", Text: "2001-02-01 landlord\n    expenses:unsaved  7 USD\n    assets:unsaved  -7 USD\n"},
+			{Op: "drain"},
+			{Op: "inline", Doc: "main.journal", Line: 3, Char: 0},
+			{Op: "close", Doc: "inc.journal"},
+			{Op: "inline", Doc: "main.journal", Line: 3, Char: 0},
+			{Op: "drain"},
+			{Op: "inline", Doc: "main.journal", Line: 3, Char: 0},
+		}, Gone: []c14Gone{{After: 6, Text: "expenses:unsaved"}}},
 		{Name: "S4-two-docs-semantic-tokens", Files: files, Bound: b(1, 2), Msgs: []wire.Msg{
 			{Op: "open", Doc: "main.journal", Text: c14Main0},
 			{Op: "open", Doc: "inc.journal", Text: c14Inc0},
@@ -378,7 +402,8 @@ func c14Resource(m wire.Msg) string {
 	switch m.Op {
 	case "open", "change":
 		return "doc:" + m.Doc
-	case "savefile":
+	case "savefile", "save", "close":
+		// saving or closing a file starts a new analysis of the documents that include it
 		return "reanalysis"
 	case "initialized", "config", "configq":
 		return "config"
@@ -521,7 +546,16 @@ func c14Oracle(c *core.Ctx, sc c14Scenario, choices []int, r vsched.Result, o, w
 			violated = true
 			continue
 		}
-		if o[i] == want[i] || lag.accept[i][o[i]] {
+		gone := false
+		for _, g := range sc.Gone {
+			if i > g.After && strings.Contains(o[i], g.Text) {
+				gone = true
+				violated = true
+				c.Violate(fmt.Sprintf("response|%s|msg%d:%s|shows text that was discarded before the request", sc.Name, i, sc.Msgs[i].Op), "response computed from the document state at the moment of the request",
+					fmt.Sprintf("message %d %s: response %s\n%q is part of no document since message %d", i, sc.Msgs[i], firstN(o[i], 600), g.Text, g.After), cs)
+			}
+		}
+		if gone || o[i] == want[i] || lag.accept[i][o[i]] {
 			continue
 		}
 		class := "corrupt"
